@@ -6,13 +6,20 @@ import (
 )
 
 func (p *Pool) Run(ctx context.Context) {
-	if !p.runM.TryLock() {
+	p.runM.Lock()
+	defer p.runM.Unlock()
+
+	if p.running {
 		slog.Warn("worker pool already running")
 		return
 	}
 
+	p.stateM.Lock()
 	p.ctx, p.cancel = context.WithCancel(ctx)
 	p.ch = make(chan Event, p.opts.NumWorkers*2) //nolint:mnd
+	p.running = true
+	p.stateM.Unlock()
+
 	for range p.opts.NumWorkers {
 		p.runWg.Add(1)
 		go p.run() //nolint:contextcheck
